@@ -72,7 +72,8 @@ def check(pid, tier):
     # components with several inputs and outputs (Connect2.tla): the result of the phase and every
     # call against the least fixpoint over all ports
     cases2 = []
-    for f, cap in (("lanes", 2500 if tier == "quick" else None), ("cross", None), ("halfstuck", 1200 if tier == "quick" else None)):
+    for f, cap in (("lanes", 2500 if tier == "quick" else None), ("cross", None), ("halfstuck", 1200 if tier == "quick" else None),
+                   ("staticlane", 1200 if tier == "quick" else None)):
         got = tlc.emit("Connect2Emit", {"FAMILY": f})
         ev.cov["runs"].append({"kind": "tlc-case-emission+theorems", "module": "Connect2Emit", "family": f, "cases": len(got)})
         if cap and len(got) > cap:
